@@ -40,6 +40,10 @@ type inliner struct {
 	tail      map[ast.Stmt]bool // statements in tail position of the function being rewritten
 	closureFn map[*types.Var]*types.Func
 	known     func(q string, e ast.Expr) bool // is this defining expression part of the inventory of function q?
+
+	argsDead  bool                // the call being bound ends its caller, which has no function literal and no named result
+	deadTaken map[*types.Var]bool // locals of the caller already handed to a parameter of this call
+	curHasLit bool
 }
 
 // FuncInventory lists "pkgpath.Func" / "pkgpath.Type.Method" for all first-party declarations.
@@ -132,6 +136,18 @@ func (p *Program) InlineNewHelpers(baseline *Baseline) {
 			if refs[f] == 0 && before[f] > 0 {
 				p.hidden[fd] = true
 				in.Inlined = append(in.Inlined, FuncName(fd))
+			}
+		}
+		// the inlined bodies arrive as blocks: splice them where nothing they declare is seen elsewhere
+		if len(in.Inlined) > 0 {
+			for _, fd := range p.AllFuncDeclsRaw(pkg) {
+				if !p.hidden[fd] {
+					in.norm.coalesceCopies(fd) // inside the inlined block, before `x := y; if …` can become an if with init
+					in.norm.canonShape(fd)
+					if in.norm.coalesceCopies(fd) {
+						in.norm.canonShape(fd)
+					}
+				}
 			}
 		}
 		sort.Strings(in.Inlined)
@@ -437,6 +453,20 @@ func (in *inliner) bindParams(fd *ast.FuncDecl, call *ast.CallExpr, recv ast.Exp
 			subst[obj] = arg
 			return
 		}
+		// the caller ends with this call and hands over a local of its own that nothing can look at
+		// afterwards: the callee may as well work on that local (what `x := x` would only copy)
+		if in.argsDead {
+			if id, ok := arg.(*ast.Ident); ok {
+				if v, ok := in.info.Uses[id].(*types.Var); ok && !v.IsField() && v.Pkg() != nil && v.Parent() != v.Pkg().Scope() && !in.deadTaken[v] {
+					if in.deadTaken == nil {
+						in.deadTaken = map[*types.Var]bool{}
+					}
+					in.deadTaken[v] = true
+					subst[obj] = arg
+					return
+				}
+			}
+		}
 		// a pure argument (a lookup like pools.Get(name)) handed to a helper that consists of one
 		// expression and uses the parameter once: evaluated at its single use instead of up front
 		if singleExpr(fd) != nil && in.norm != nil && in.norm.pureExpr(arg, 0) && !in.paramAssigned(fd.Body, obj) && in.useCount(fd.Body, obj) <= 1 {
@@ -483,6 +513,22 @@ func (in *inliner) rewriteBody(fd *ast.FuncDecl) bool {
 	changed := false
 	closureDefs := in.closureCands(fd)
 	in.tail = map[ast.Stmt]bool{}
+	// a function literal (deferred or not) may look at the caller's locals after a tail call; so may the
+	// caller of a function with named results
+	in.curHasLit = false
+	ast.Inspect(fd, func(n ast.Node) bool {
+		if _, ok := n.(*ast.FuncLit); ok {
+			in.curHasLit = true
+		}
+		return !in.curHasLit
+	})
+	if fd.Type.Results != nil {
+		for _, r := range fd.Type.Results.List {
+			if len(r.Names) > 0 {
+				in.curHasLit = true
+			}
+		}
+	}
 	if n := len(fd.Body.List); n > 0 {
 		last := fd.Body.List[n-1]
 		in.tail[last] = true
@@ -713,7 +759,10 @@ func (in *inliner) inlineStmt(stmt ast.Stmt, self *types.Func, cont *ast.IfStmt)
 			return nil // the expression-level pass handles it, keeping the statement shape
 		}
 	}
+	in.argsDead = (kind == "return" || (kind == "expr" && in.tail[stmt])) && !in.curHasLit
+	in.deadTaken = nil
 	subst, prologue, ok := in.bindParams(hd, call, recv)
+	in.argsDead = false
 	if !ok {
 		return nil
 	}
@@ -773,6 +822,24 @@ func (in *inliner) inlineStmt(stmt ast.Stmt, self *types.Func, cont *ast.IfStmt)
 		})
 	}
 	_ = rewrite
+	// a callee whose only return is its last statement needs no jump: its body, then the assignment
+	if cont == nil && (kind == "assign" || kind == "expr") && len(body.List) > 0 {
+		if last, ok := body.List[len(body.List)-1].(*ast.ReturnStmt); ok && countReturns(body) == 1 {
+			list := append(prologue, body.List[:len(body.List)-1]...)
+			switch kind {
+			case "expr":
+				for _, r := range last.Results {
+					if _, isCall := r.(*ast.CallExpr); isCall {
+						list = append(list, &ast.ExprStmt{X: r})
+					}
+				}
+			case "assign":
+				as := stmt.(*ast.AssignStmt)
+				list = append(list, &ast.AssignStmt{Lhs: as.Lhs, Tok: as.Tok, TokPos: last.Pos(), Rhs: last.Results})
+			}
+			return &ast.BlockStmt{Lbrace: stmt.Pos(), Rbrace: stmt.End(), List: list}
+		}
+	}
 	fix(body)
 	list := append(prologue, body.List...)
 	if kind == "return" {
@@ -789,6 +856,21 @@ func (in *inliner) inlineStmt(stmt ast.Stmt, self *types.Func, cont *ast.IfStmt)
 	}}}
 	labeled := &ast.LabeledStmt{Label: label, Colon: stmt.Pos(), Stmt: sw}
 	return &ast.BlockStmt{Lbrace: stmt.Pos(), Rbrace: stmt.End(), List: append(prologue, labeled)}
+}
+
+// countReturns counts the return statements of a body, those of function literals excluded.
+func countReturns(body ast.Node) int {
+	n := 0
+	ast.Inspect(body, func(x ast.Node) bool {
+		switch x.(type) {
+		case *ast.FuncLit:
+			return false
+		case *ast.ReturnStmt:
+			n++
+		}
+		return true
+	})
+	return n
 }
 
 // cloneLHS copies an assignment target of the caller; a defining identifier becomes a use of the same object.
